@@ -539,7 +539,10 @@ def _objective(cfg):
         f = odl.solvers.L2NormSquared(op.range).translated(op.range.element(b)) * op
         wx, wy = S.weights(op.domain), S.weights(op.range)
         q = R.QuadData(wx, A, b, wy)
-        return f, q.value, q.grad, op.domain
+        def val(z):
+            return q.value(z)
+        val.lip = q.lip
+        return f, val, q.grad, op.domain
     if kind == 'quadform':
         # f(x) = <x, A x> + <v, x> + c  with A self-adjoint positive definite
         n = cfg['n']
@@ -560,6 +563,7 @@ def _objective(cfg):
 
         def grad(z):
             return 2 * A.dot(np.asarray(z, float)) + v
+        val.lip = 2 * R.opnorm(A, w, w)
         return f, val, grad, sp
     raise KeyError(kind)
 
@@ -567,7 +571,9 @@ def _objective(cfg):
 LS_OPTS = [{'tau': 0.5, 'discount': 0.01, 'estimate_step': False},
            {'tau': 0.8, 'discount': 0.5, 'estimate_step': False},
            {'tau': 0.5, 'discount': 0.01, 'estimate_step': True},
-           {'tau': 0.25, 'discount': 0.1, 'estimate_step': True}]
+           {'tau': 0.25, 'discount': 0.1, 'estimate_step': True},
+           {'tau': 0.5, 'discount': 0.01, 'estimate_step': True, 'alpha': 4.0},
+           {'tau': 0.5, 'discount': 0.1, 'estimate_step': False, 'max_num_iter': 6}]
 SMOOTH = ['steepest_descent', 'conjugate_gradient_nonlinear[FR]',
           'conjugate_gradient_nonlinear[PR]', 'conjugate_gradient_nonlinear[HS]',
           'conjugate_gradient_nonlinear[DY]', 'newtons_method', 'bfgs_method',
@@ -605,13 +611,26 @@ def run_smooth(cfg):
     first, evals, sigs, skipped = {}, 0, set(), 0
     maxiter = 25 if horizon == 'short' else 1500
     judged_exc = name == 'steepest_descent'       # the solver the property names
+    if cfg.get('ls') == 'fixed':
+        return _run_fixed_steps(cfg, f, val, grad, sp)
+    jobs = []
     for lo in (LS_OPTS if horizon == 'short' else LS_OPTS[:2]):
-        for x0 in (_starts(n) if horizon == 'short' else _starts(n)[:3]):
+        starts = _starts(n) if horizon == 'short' else _starts(n)[:3]
+        for x0 in starts:
+            jobs.append((lo, x0, None))
+        if horizon == 'short' and lo['estimate_step']:
+            # ONE line-search object reused across several solver calls (it remembers its last
+            # step): every call must still only take steps that decrease the objective
+            shared = odl.solvers.BacktrackingLineSearch(f, **lo)
+            for x0 in starts[::2]:
+                jobs.append((lo, x0, shared))
+    for lo, x0, shared in jobs:
+        if True:
             if np.linalg.norm(grad(x0)) == 0:
                 continue
             x = sp.element(x0.copy())
             rec = Rec()
-            ls = odl.solvers.BacktrackingLineSearch(f, **lo)
+            ls = shared if shared is not None else odl.solvers.BacktrackingLineSearch(f, **lo)
             exc = None
             try:
                 _call_smooth(name, f, x, ls, maxiter, rec)
@@ -619,8 +638,9 @@ def run_smooth(cfg):
                 exc = e
             its = [x0] + rec.it
             vals = [val(z) for z in its]
-            info = 'objective=%s line_search=%s x0=%s' % (
+            info = 'objective=%s line_search=%s%s x0=%s' % (
                 dict((k, v) for k, v in cfg.items() if k not in ('kind', 'solver')), lo,
+                ' (object reused from the previous starts)' if shared is not None else '',
                 x0.tolist())
             if exc is not None:
                 gn = float(np.linalg.norm(grad(S.to_flat(x))))
@@ -645,10 +665,52 @@ def run_smooth(cfg):
                 k = bad[0]
                 _first(first, 'objective_increases',
                        '%s step %d: f %r -> %r' % (info, k + 1, vals[k], vals[k + 1]))
-            sigs.add('%s:%s:%s:%s' % (name, lo['estimate_step'],
-                                      type(exc).__name__ if exc else 'ok',
-                                      min(len(rec.it), 3)))
+            sigs.add('%s:%s:%s:%s:%s' % (name, lo['estimate_step'], shared is not None,
+                                         type(exc).__name__ if exc else 'ok',
+                                         min(len(rec.it), 3)))
     return {'evals': evals, 'viol': _viol(site, first), 'sig': sorted(sigs), 'skipped': skipped}
+
+
+def _run_fixed_steps(cfg, f, val, grad, sp):
+    """steepest_descent with ConstantLineSearch / a float / LineSearchFromIterNum and steps in
+    (0, 2/Lip) on quadratic objectives: f(x - s grad f) <= f(x) - s (1 - s Lip / 2) |grad f|^2,
+    so the objective cannot increase."""
+    lip = val.lip
+    n = sp.size
+    site = 'steepest_descent[fixed-steps<2/Lip]'
+    first, evals, sigs = {}, 0, set()
+    kinds = [('ConstantLineSearch', 1.0), ('ConstantLineSearch', 1.9), ('float', 0.5),
+             ('LineSearchFromIterNum', 'alternating 0.5/Lip, 1.5/Lip')]
+    for kind, c in kinds:
+        for x0 in _starts(n):
+            if kind == 'ConstantLineSearch':
+                ls = odl.solvers.ConstantLineSearch(c / lip)
+            elif kind == 'float':
+                ls = c / lip
+            else:
+                ls = odl.solvers.LineSearchFromIterNum(lambda k: (1.5 if k % 2 else 0.5) / lip)
+            x = sp.element(x0.copy())
+            rec = Rec()
+            try:
+                odl.solvers.steepest_descent(f, x, line_search=ls, maxiter=25, callback=rec)
+            except Exception as e:
+                _first(first, 'raises:' + type(e).__name__, '%s %s x0=%s: %r' % (
+                    kind, c, x0.tolist(), e))
+                continue
+            evals += 1
+            vals = [val(z) for z in [x0] + rec.it]
+            for k in range(len(vals) - 1):
+                if not vals[k + 1] <= vals[k] + 1e-12 * (1.0 + abs(vals[k])):
+                    _first(first, 'objective_increases',
+                           'objective=%s line_search=%s(%s, Lip=%r) x0=%s step %d: f %r -> %r' % (
+                               dict((a, b) for a, b in cfg.items()
+                                    if a not in ('kind', 'solver', 'ls', 'horizon')),
+                               kind, c, lip, x0.tolist(), k + 1, vals[k], vals[k + 1]))
+                    break
+            if rec.it and not np.array_equal(S.to_flat(x), rec.it[-1]):
+                _first(first, 'result_is_not_last_iterate', '%s x0=%s' % (kind, x0.tolist()))
+            sigs.add('fixed:%s:%s:%d' % (kind, c, min(len(rec.it), 3)))
+    return {'evals': evals, 'viol': _viol(site, first), 'sig': sorted(sigs)}
 
 
 def run_linesearch(cfg):
@@ -661,14 +723,21 @@ def run_linesearch(cfg):
     site = 'BacktrackingLineSearch.__call__'
     first, evals, sigs, skipped = {}, 0, set(), 0
     dirs = [np.array(t) for t in itertools.product([-1.0, 0.0, 0.5], repeat=n) if any(t)]
+    shared = {}
     for lo in LS_OPTS:
         for x0 in _starts(n):
             for d in dirs:
                 dd = float(np.sum(w * grad(x0) * d))
                 if dd == 0:
                     continue
-                for give in (True, False):
-                    ls = odl.solvers.BacktrackingLineSearch(f, **lo)
+                for give in (True, False, 'shared'):
+                    if give == 'shared':
+                        if not lo['estimate_step']:
+                            continue
+                        # one object for ALL (x, d) of this option set: history dependent
+                        ls = shared.setdefault(id(lo), odl.solvers.BacktrackingLineSearch(f, **lo))
+                    else:
+                        ls = odl.solvers.BacktrackingLineSearch(f, **lo)
                     for rep in range(2 if lo['estimate_step'] else 1):
                         try:
                             a = ls(sp.element(x0), sp.element(d), dd if give else None)
@@ -1734,6 +1803,9 @@ def configs(tier):
             cfgs.append(dict(o, kind='smooth', solver=sv, horizon='short'))
         if thorough or o['obj'] != 'lsq':
             cfgs.append(dict(o, kind='smooth', solver='steepest_descent', horizon='long'))
+        if o['obj'] != 'rosenbrock':
+            cfgs.append(dict(o, kind='smooth', solver='steepest_descent', horizon='short',
+                             ls='fixed'))
     # ---- (c) power method
     sym2 = [list(t) for t in itertools.product(MV, repeat=3) if any(t)]
     for wk in ('plain', 'w2', 'wa'):
